@@ -5,6 +5,7 @@ import (
 	"context"
 	"fmt"
 	"io"
+	"math"
 
 	"github.com/ipfs/go-cid"
 	unixfsnode "github.com/ipfs/go-unixfsnode"
@@ -50,7 +51,7 @@ func (c04) Runs(t Tier) int {
 }
 func (c04) RecordWidths() map[string]int { return map[string]int{"ops": 4} }
 func (c04) RequiredProbes() []string {
-	return []string{"seek-on-boundary", "seek-end-relative-on-boundary", "read-crosses-interior-boundary", "read-at-eof", "negative-seek", "readers-interleaved-mid-chunk", "seek-past-end", "dedup-dag", "depth>=3", "node-asbytes-mid-history", "second-file-read-in-between", "linksystem-with-node-reifier", "reader-replaced-mid-history"}
+	return []string{"seek-on-boundary", "seek-end-relative-on-boundary", "read-crosses-interior-boundary", "read-at-eof", "negative-seek", "readers-interleaved-mid-chunk", "seek-past-end", "extreme-negative-seek", "dedup-dag", "depth>=3", "node-asbytes-mid-history", "second-file-read-in-between", "linksystem-with-node-reifier", "reader-replaced-mid-history"}
 }
 
 type c04Op struct {
@@ -342,6 +343,10 @@ func (c04) Run(ts *tape.Set, tier Tier) *Result {
 				target = L + 1 + int64(b%100)
 			case 6, 7:
 				target = -1 - int64(b%10)
+				if kind == 1 && b%7 == 0 {
+					target = []int64{math.MinInt64, math.MinInt64 + 1, -1 << 62, -1 << 32, -1 << 31}[(b>>8)%5]
+					res.probe("extreme-negative-seek")
+				}
 			default:
 				target = int64(b % uint64(L+1))
 			}
